@@ -9,7 +9,7 @@ import (
 func jobOf(id int, cf *Config, txns []Txn) Job {
 	j := Job{ID: id, Flows: map[string]string{}, Quotas: map[string]string{}, Txns: txns}
 	for i := range cf.Flows {
-		j.Flows[cf.Flows[i].Name+".yaml"] = cf.Flows[i].YAML()
+		j.Flows[fmt.Sprintf("f%d_%s.yaml", i, cf.Flows[i].Name)] = cf.Flows[i].YAML()
 	}
 	if len(cf.Quotas) > 0 {
 		j.Quotas["quotas.yaml"] = cf.QuotaYAML()
